@@ -41,9 +41,9 @@ _CFG = {
     "C02": {"scenarios": ["cmds"], "trusted": RUNTIME_TRUST},
     "C03": {"scenarios": ["seq"], "trusted": RUNTIME_TRUST},
     "C04": {"scenarios": ["term"], "trusted": RUNTIME_TRUST},
-    "C05": {"scenarios": ["modes", "exec"], "streams": [GLUE], "trusted": RENDER_TRUST},
+    "C05": {"scenarios": ["modes", "exec", "pty"], "streams": [GLUE], "trusted": RENDER_TRUST},
     "C06": {"streams": [RENDER, VT], "rule": RENDER_RULE, "trusted": RENDER_TRUST},
-    "C07": {"streams": [RENDER], "rule": RENDER_RULE, "trusted": RENDER_TRUST},
+    "C07": {"streams": [RENDER], "scenarios": ["final"], "rule": RENDER_RULE, "trusted": RENDER_TRUST},
     "C08": {"streams": [DETECT, READER], "rule": INPUT_RULE, "trusted": INPUT_TRUST},
     "C09": {"streams": [DETECT, READER], "rule": INPUT_RULE, "trusted": INPUT_TRUST,
             "assumptions": ["the reader goroutine's cancellation (ctx.Done arm of the send) is covered by the C04 scenarios, not by this model"]},
@@ -55,6 +55,7 @@ _CFG = {
     "C15": {"streams": [READER], "rule": INPUT_RULE, "trusted": INPUT_TRUST},
     "C16": {"scenarios": ["filter"], "trusted": RUNTIME_TRUST},
     "C17": {"scenarios": ["exec"], "streams": [GLUE], "trusted": RENDER_TRUST + ["input hand-over to the exec'd command depends on cancelreader/epoll semantics: observed on an os.Pipe, not proved"]},
+    "C18": {"scenarios": ["pty", "term"], "trusted": RUNTIME_TRUST + ["kernel signal delivery, os/signal.Notify, TIOCGWINSZ/SIGWINCH are outside the model: observed on a pty, not proved"]},
     "C19": {"streams": [RENDER, {"name": "fps", "quick": 2000, "thorough": 100000}], "rule": RENDER_RULE, "trusted": RENDER_TRUST},
     "C20": {"streams": [{"name": "every", "quick": 6000, "thorough": 200000}], "scenarios": ["timing"],
             "rule": "every: Every's delay expression evaluated by Go's time package vs the Lean model on boundary instants (+-1ns), zero/negative/huge durations and seeded random instants; timing: real Tick/Every commands. distinct = distinct (instant, duration) lines; non-trivial = positive duration",
